@@ -1021,7 +1021,10 @@ def run(chk, tier):
     ob_containment(env, L)
     ob_entry_points(env)
     ob_repeated_reads(env)
-    ob_load_base_dir(env, L)
+    # z3's sequence solver answers `unknown` for the load obligation beyond 10 characters (probed: 10 decides, 12 does not)
+    L_load = min(L, 10)
+    chk.bounds["string_length_load"] = f"<= {L_load} (model path of the load obligation)"
+    ob_load_base_dir(env, L_load)
     ob_load_reaches_all_tensors(env)
     # anchor of the symbolic model in the real kernel: one escaping layout per layer (file symlink, symlinked directory, hard
     # link, '..', absolute location) on a real directory tree must be refused by every read entry point (concrete)
